@@ -166,11 +166,13 @@ class RecMember(KDSingleCollator):
     """member k of a pipeline: logs what it is given, tags ctx, applies `edit_value` to one item.
 
     cmode 'before' -> written for collated data; 'after' -> written for raw samples (default collation follows);
-    None -> written for raw samples and collates them itself (the pipeline never collates on its behalf)."""
+    None -> written for raw samples; the pipeline never collates on its behalf. With keep_raw=False it collates them
+    itself (like PadSequencesCollator); with keep_raw=True it is a per-sample collator that returns the list of samples
+    uncollated, so the members behind it decide the collation point."""
 
-    def __init__(self, k, cmode, op_item=None, **kwargs):
+    def __init__(self, k, cmode, op_item=None, keep_raw=False, **kwargs):
         super().__init__(**kwargs)
-        self.k, self.cmode, self.op_item = k, cmode, op_item
+        self.k, self.cmode, self.op_item, self.keep_raw = k, cmode, op_item, keep_raw
         self.log = []
         self.flags = []
         self.errors = []
@@ -207,6 +209,6 @@ class RecMember(KDSingleCollator):
                 v = ModeWrapper.get_item(mode=dataset_mode, item=item, batch=s)
                 new.append(set_item_checked(dataset_mode, item, s, edit_value(v, self.k), self.flags))
             samples = new
-        if self.cmode is None:
+        if self.cmode is None and not self.keep_raw:
             return default_collate(samples)
         return samples
